@@ -10,6 +10,7 @@ import Postcard.Model.SchemaFmt
 import Postcard.Model.SchemaSer
 import Postcard.Model.Cobs
 import Postcard.Model.Crc
+import Postcard.Model.Accumulator
 import Postcard.Spec.Cobs
 import Postcard.Spec.Fnv
 /-
@@ -90,6 +91,29 @@ def storageRun (storage : String) (cap : Nat) (fill : Byte)
   | "hvec" => run HVec ⟨cap, []⟩ (fun _ => [])
   | "alloc" => run AllocVec [] (fun _ => [])
   | _ => "bad-op"
+
+def accAnswer (n : Nat) (t : Ty) (chunks : List (List Byte)) : String :=
+  -- `T::deserialize` on the accumulated frame: from_bytes_cobs::<T>(&mut buf[..idx])
+  let decF : List Byte → Option Val := fun frame =>
+    match (fromBytesCobs (fromBytes t) frame).1 with
+    | .ok v => some v
+    | .error _ => none
+  -- run the documented loop chunk by chunk, recording the buffer after every call
+  let rec go (fuel : Nat) (a : Acc) (w : List Byte) (acc : List String) : Acc × List String :=
+    match fuel with
+    | 0 => (a, "fuel" :: acc)
+    | fuel+1 =>
+      if w.isEmpty then (a, acc) else
+      let (r, a') := a.feed decF w
+      let b := " buf=" ++ hexOfBytes a'.buf
+      match r with
+      | .consumed => (a', ("C" ++ b) :: acc)
+      | .overFull rem => go fuel a' rem (("O rem=" ++ hexOfBytes rem ++ b) :: acc)
+      | .deserError rem => go fuel a' rem (("E rem=" ++ hexOfBytes rem ++ b) :: acc)
+      | .success d rem => go fuel a' rem (("S " ++ valToStr d ++ " rem=" ++ hexOfBytes rem ++ b) :: acc)
+      | .panic => (a', "panic" :: acc)
+  let (_, out) := chunks.foldl (fun (st : Acc × List String) c => go (2 * c.length + 2) st.1 c st.2) (Acc.new n, [])
+  "acc" ++ String.join (out.reverse.map (" ; " ++ ·))
 
 def handle (line : String) : String :=
   match Sexp.parseLine line with
@@ -228,6 +252,10 @@ def handle (line : String) : String :=
       match tyOfSexp t, bytesOfHex h with
       | some t, some bs => withAlg alg (fun _ a nbytes => deAnswer (takeFromBytesCrc a nbytes (dec t) bs)) "bad-op"
       | _, _ => "bad-op"
+    | "acc", (.atom n :: t :: chunks) =>
+      match n.toNat?, tyOfSexp t, chunks.mapM (fun c => match c with | .atom h => bytesOfHex h | _ => none) with
+      | some n, some t, some cs => accAnswer n t cs
+      | _, _, _ => "bad-op"
     | "hasty", [t, v] =>
       match tyOfSexp t, valOfSexp v with
       | some t, some v => if hasTy v t then "ok 1" else "ok 0"
